@@ -233,6 +233,11 @@ func runCase(c Case, ctx *hx.Ctx) *hx.Failure {
 		return hx.Failf("C05/lifetime-too-long", "rcode=%d answers=%d smallest TTL=%d: message expires %d s after the store, allowed at most %d s", ans.Rcode, len(ans.Answer), minTTL, e.GetMsgExpirationTime()-s1.Unix(), upper)
 	}
 	_ = msgLife
+	// NXDOMAIN, SERVFAIL and empty NOERROR answers live at most that long - also as cache entries
+	// (they are not kept for lazy serving)
+	if upper > 0 && (ans.Rcode != 0 || len(ans.Answer) == 0) && e.GetCacheExpirationTime() > s1.Unix()+upper {
+		return hx.Failf("C05/lifetime-too-long", "rcode=%d answers=%d smallest TTL=%d lazy_cache_ttl=%d: the entry is kept for %d s after the store, allowed at most %d s", ans.Rcode, len(ans.Answer), minTTL, c.Lazy, e.GetCacheExpirationTime()-s1.Unix(), upper)
+	}
 	if ans.Rcode == 0 && len(ans.Answer) > 0 {
 		// NOERROR with answers lives exactly its smallest TTL
 		if e.GetMsgExpirationTime() < s0.Unix()+minTTL-1 {
@@ -259,13 +264,18 @@ func runCase(c Case, ctx *hx.Ctx) *hx.Failure {
 	}
 	base := records(storedMsg)
 
-	var inflight, maxInflight, bgCalls, bgDone atomic.Int32
+	var inflight, maxInflight, bgCalls, bgDone, bgSkipped atomic.Int32
 	gate := make(chan struct{})
 	var gateOnce sync.Once
 	openGate := func() { gateOnce.Do(func() { close(gate) }) }
 	defer openGate()
 	next := func(cx context.Context, q *query_context.Context) error {
 		if _, bg := cx.Deadline(); bg { // background lazy refresh
+			if q.R() != nil {
+				// like the usual "!has_resp -> forward" rule: a refresh that starts with a response never reaches the upstream
+				bgSkipped.Add(1)
+				return nil
+			}
 			n := inflight.Add(1)
 			for {
 				m := maxInflight.Load()
@@ -382,8 +392,11 @@ func runCase(c Case, ctx *hx.Ctx) *hx.Failure {
 	if nLazy > 0 {
 		// exactly the refreshes the hits asked for are de-duplicated: with the gate closed, all hits arrived while the first was in flight
 		deadline := time.Now().Add(5 * time.Second)
-		for bgCalls.Load() == 0 && time.Now().Before(deadline) {
+		for bgCalls.Load() == 0 && bgSkipped.Load() == 0 && time.Now().Before(deadline) {
 			time.Sleep(time.Millisecond)
+		}
+		if bgSkipped.Load() > 0 {
+			return hx.Failf("C05/lazy-refresh-no-update", "the background refresh was started with the stale answer already attached to its query context: a chain that forwards only while there is no response never refreshes the entry")
 		}
 		if n := bgCalls.Load(); n != 1 {
 			if n == 0 {
